@@ -114,6 +114,11 @@ def admission_events(sess, arrays, entry, **kw):
     new_files = sorted(after - before)
     if outcome == "refuse" and new_files and "write" not in comp:
         comp.append("write")     # something appeared on disk without going through the observed store
+    if outcome == "refuse" and "enter" in comp and not any(w in str(exc).lower() for w in ("allowed_mem", "memory", "projected")):
+        # a ValueError AFTER the executor was entered that does not speak of memory is not an admission decision (e.g. zarr's
+        # ArrayNotFoundError, a ValueError subclass, when a target was never written: findings F8/F9, judged by C10/C11/C17);
+        # a memory refusal that comes late stays a "refuse" and is rejected by C04:RefusedAfterStarting
+        outcome = "error"
     comp.append(outcome)
     return comp, exc, ex, new_files
 
